@@ -697,6 +697,7 @@ func checkHierarchicalLoop(p *core.Prog, r *core.Report, ds *core.Describer, f *
 		return g, hit
 	}
 	testGetter := ""
+	thresholdNote := ""
 	presence := func(c core.Cond) int {
 		if c.Op == "" {
 			if c.B != nil {
@@ -718,7 +719,14 @@ func checkHierarchicalLoop(p *core.Prog, r *core.Report, ds *core.Describer, f *
 					if side == c.Y {
 						rel = core.FlipRel(rel)
 					}
-					if rel == "!=" || rel == ">" {
+					other := c.Y
+					if side == c.Y {
+						other = c.X
+					}
+					if present, note := presenceRel(rel, other); present {
+						if note != "" {
+							thresholdNote = note
+						}
 						return s
 					}
 				}
@@ -785,6 +793,9 @@ func checkHierarchicalLoop(p *core.Prog, r *core.Report, ds *core.Describer, f *
 			nHit++
 			w := core.Unguarded(ds, f, nil, isRet, presence)
 			r.Check(w == nil, "C19.3", construct+"|presence-test", p.Pos(ret.Pos()), "the found value is returned only after a presence test on the same key", "the value at <path>.<name> is returned without a presence test on that key", p.WitnessText(w)...)
+			if w == nil {
+				r.Check(thresholdNote == "", "C19.3", construct+"|presence-threshold", p.Pos(ret.Pos()), "an order test that decides presence compares with zero", "presence is decided by "+thresholdNote+": a more specific value that is set but does not exceed that threshold is ignored in favour of a less specific level")
+			}
 			rt := f.Signature.Results().At(0).Type().Underlying()
 			if b, ok := rt.(*types.Basic); ok && (b.Info()&types.IsBoolean != 0 || b.Info()&types.IsInteger != 0) && !strings.HasSuffix(types.TypeString(f.Signature.Results().At(0).Type(), nil), "time.Duration") && w == nil {
 				okGetter := testGetter == "GetString" || testGetter == "IsSet" || testGetter == "Get" || testGetter == "InConfig"
@@ -973,6 +984,7 @@ func checkHierarchical(p *core.Prog, r *core.Report, ds *core.Describer, f *ssa.
 	})
 	// presence test on the same key
 	var testGetter string
+	thresholdNote := ""
 	presence := func(c core.Cond) int {
 		if keyForm {
 			if c.Op == "" && c.B != nil {
@@ -1026,7 +1038,14 @@ func checkHierarchical(p *core.Prog, r *core.Report, ds *core.Describer, f *ssa.
 					if side == c.Y {
 						rel = core.FlipRel(rel)
 					}
-					if rel == "!=" || rel == ">" {
+					other := c.Y
+					if side == c.Y {
+						other = c.X
+					}
+					if present, note := presenceRel(rel, other); present {
+						if note != "" {
+							thresholdNote = note
+						}
 						return s
 					}
 				}
@@ -1088,6 +1107,9 @@ func checkHierarchical(p *core.Prog, r *core.Report, ds *core.Describer, f *ssa.
 			}
 			w := core.Unguarded(ds, f, nil, isRet, presence)
 			r.Check(w == nil, "C19.3", construct+"|presence-test", p.Pos(ret.Pos()), "the found value is returned only after a presence test on the same key", "the value at <path>.<name> is returned without a presence test on that key", p.WitnessText(w)...)
+			if w == nil {
+				r.Check(thresholdNote == "", "C19.3", construct+"|presence-threshold", p.Pos(ret.Pos()), "an order test that decides presence compares with zero", "presence is decided by "+thresholdNote+": a more specific value that is set but does not exceed that threshold is ignored in favour of a less specific level")
+			}
 			if w == nil {
 				rt := f.Signature.Results().At(0).Type().Underlying()
 				zeroOK := false
@@ -1291,4 +1313,30 @@ func arrivesOnlyWithNonEmpty(b *ssa.BasicBlock, v ssa.Value, depth int) bool {
 		return false
 	}
 	return true
+}
+
+// presenceRel: does `value rel other` say "the value is present"?  != anything, > 0, >= 1; an order test against another
+// constant still guards the found value, but with a threshold (note) that is not presence.
+func presenceRel(rel string, other *core.VD) (bool, string) {
+	switch rel {
+	case "!=":
+		return true, ""
+	case ">", ">=":
+		want := int64(0)
+		if rel == ">=" {
+			want = 1
+		}
+		if other != nil && other.Val != nil && core.IsIntConst(other.Val, want) {
+			return true, ""
+		}
+		if other != nil && other.Val != nil {
+			if _, isC := other.Val.(*ssa.Const); isC {
+				return true, "`" + rel + " " + other.String() + "`"
+			}
+		}
+		if rel == ">" {
+			return true, ""
+		}
+	}
+	return false, ""
 }
